@@ -8,7 +8,7 @@ for f in sorted(glob.glob('/verif/seeded/*/meta.json')):
     now = "detected" if (own_first == "detected" or m.get("result_after", "").startswith("DETECTED")) else "missed"
     if m.get("detected_by") == "-":
         now = "n/a (neutralised by a fix)"
-    rnd = 8 if "round 8" in m.get("origin", "") else 7 if "round 7" in m.get("origin", "") else 6 if "round 6" in m.get("origin", "") else 5 if "round 5" in m.get("origin", "") else 4 if "round 4" in m.get("origin", "") else 3 if "round 3" in m.get("origin", "") else 2 if "round 2" in m.get("origin", "") else 1
+    rnd = 9 if "round 9" in m.get("origin", "") else 8 if "round 8" in m.get("origin", "") else 7 if "round 7" in m.get("origin", "") else 6 if "round 6" in m.get("origin", "") else 5 if "round 5" in m.get("origin", "") else 4 if "round 4" in m.get("origin", "") else 3 if "round 3" in m.get("origin", "") else 2 if "round 2" in m.get("origin", "") else 1
     rows.append((rnd, m["id"], m["property"], own_first, now, m))
 out = ["# Seeded changes\n",
        "Each directory holds one change to notqmail that breaks one listed property while the tree still builds and the 22 repository",
@@ -27,7 +27,7 @@ for rnd, id, prop, first, now, m in sorted(rows, key=lambda r: (r[2], r[0])):
     cl = re.findall(r"VIOLATION ([^;(]*)", r)
     out.append("| %d | %s | %s | %s | %s | %s |" % (rnd, id, prop, first, now, (cl[0].strip()[:100] if cl else r[:100])))
 out.append("")
-for k in (1, 2, 3, 4, 5, 6, 7, 8):
+for k in (1, 2, 3, 4, 5, 6, 7, 8, 9):
     n = [r for r in rows if r[0] == k]
     out.append("Round %d: %d seeds, %d detected by the owning check at the first run." % (k, len(n), sum(1 for r in n if r[3] == "detected")))
 out.append("")
@@ -39,6 +39,6 @@ for rnd, id, prop, first, now, m in sorted(rows, key=lambda r: (r[2], r[0])):
 out.append("")
 open('/verif/seeded/README.md', 'w').write("\n".join(out))
 print("\n".join(out[-0:][14:16]))
-for k in (1, 2, 3, 4, 5, 6, 7, 8):
+for k in (1, 2, 3, 4, 5, 6, 7, 8, 9):
     n = [r for r in rows if r[0] == k]
     print(k, len(n), sum(1 for r in n if r[3] == "detected"))
